@@ -147,6 +147,43 @@ fn breplay<W: WorldDriver>(pops: &[(u8, Option<u8>)], nests: &[Vec<vh::types::BA
     }
 }
 
+fn c07enum<W: WorldDriver>(m: &HashMap<String, String>) -> i32 {
+    let max_n: usize = m.get("max-n").map(|s| s.parse().unwrap()).unwrap_or(5);
+    let res = vh::c07enum::run::<W>(max_n);
+    if let Some(out) = m.get("out") {
+        std::fs::write(out, format!("{{\"cases\":{},\"nontrivial\":{},\"max_n\":{},\"samples\":[{}]}}", res.cases, res.nontrivial, max_n, res.samples.iter().map(|s| json_str(s)).collect::<Vec<_>>().join(","))).expect("write stats");
+    }
+    println!("STATS prop=C07 world={} max_n={} cases={} nontrivial={}", W::NAME, max_n, res.cases, res.nontrivial);
+    if let Some((case, f)) = res.failure {
+        let path = m.get("fail-out").cloned().unwrap_or_else(|| "fail-C07-enum.ops".to_string());
+        let (sig, msg) = f.for_prop("C07");
+        std::fs::write(&path, format!("# property C07\n# {}\n# failed at step {} [{}] sig={}\n{}", one_line(&msg), f.step, f.tags.join("+"), sig, case.to_text())).expect("write replay");
+        println!("FAIL prop=C07 sig={} tags={} step={} replay={} msg={}", sig, f.tags.join("+"), f.step, path, one_line(&msg));
+        return 1;
+    }
+    0
+}
+
+fn boundary<W: WorldDriver>(m: &HashMap<String, String>) -> i32 {
+    let start: usize = m.get("start").map(|s| s.parse().unwrap()).unwrap_or((1 << 24) - 3);
+    // the archetype with the smallest footprint: prefer one whose columns are all zero-sized
+    let infos = W::archs();
+    let a = infos.iter().position(|i| i.masks.iter().all(|m| *m == 0) && i.zst_tracked == 0).unwrap_or(0);
+    let r = vh::boundary::with_capacity_limit::<W>(a).and_then(|_| vh::boundary::run::<W>(a, start));
+    match r {
+        Ok(st) => {
+            println!("STATS prop=C12 world={} archetype={} start={} creates={} growth_events={} checks={}", W::NAME, infos[a].name, start, st.creates, st.growth_events, st.checks);
+            0
+        }
+        Err(msg) => {
+            let path = m.get("fail-out").cloned().unwrap_or_else(|| "fail-C12.boundary".to_string());
+            std::fs::write(&path, format!("# property C12\n# {}\nworld {}\nboundary {}\n", one_line(&msg), W::NAME, start)).expect("write replay");
+            println!("FAIL prop=C12 sig=capacity-limit tags=C12+C10 step=0 replay={} msg={}", path, one_line(&msg));
+            1
+        }
+    }
+}
+
 fn c10<W: WorldDriver>(m: &HashMap<String, String>) -> i32 {
     let cases: u32 = m.get("cases").map(|s| s.parse().unwrap()).unwrap_or(20);
     let len: usize = m.get("len").map(|s| s.parse().unwrap()).unwrap_or(60);
@@ -290,6 +327,29 @@ fn main() {
                     3
                 }
             }
+        }
+        "c07enum" => {
+            let world = m.get("world").cloned().unwrap_or_else(|| "WMix".to_string());
+            dispatch_world(&world, || c07enum::<vh::worlds::wmix::WMix>(&m), || c07enum::<vh::worlds::wone::WOne>(&m), || c07enum::<Wide>(&m)).unwrap_or(3)
+        }
+        "cycles" => {
+            let limit: u64 = m.get("limit").map(|s| s.parse().unwrap()).unwrap_or(u64::MAX);
+            match vh::worlds::wone::cycles(limit) {
+                Ok(r) => {
+                    println!("STATS prop=C08 cycles ok: {}", r);
+                    0
+                }
+                Err(msg) => {
+                    let path = m.get("fail-out").cloned().unwrap_or_else(|| "fail-C08.cycles".to_string());
+                    std::fs::write(&path, format!("# property C08\n# {}\ncycles\n", one_line(&msg))).expect("write replay");
+                    println!("FAIL prop=C08 sig=real-cycles tags=C08+C10 step=0 replay={} msg={}", path, one_line(&msg));
+                    1
+                }
+            }
+        }
+        "boundary" => {
+            let world = m.get("world").cloned().unwrap_or_else(|| "WOne".to_string());
+            dispatch_world(&world, || boundary::<vh::worlds::wmix::WMix>(&m), || boundary::<vh::worlds::wone::WOne>(&m), || boundary::<Wide>(&m)).unwrap_or(3)
         }
         "c10" => {
             let world = m.get("world").cloned().unwrap_or_else(|| "WMix".to_string());
